@@ -353,7 +353,13 @@ fn run_one(idx: u64, line: &Value, opts: &Opts, port: u16, stats: &mut Stats) ->
     }
     let patience = if out.is_empty() { opts.wait_ms.max(5000) } else { 1500 };
     match w.join_within(Duration::from_millis(patience)) {
-        Ok(true) => {}
+        Ok(true) => {
+            // ScmSocket does not own its descriptor: close both ends now that the worker is gone
+            unsafe {
+                libc::close(w.scm_main_to_worker.raw_fd());
+                libc::close(w.scm_worker_to_main.raw_fd());
+            }
+        }
         Ok(false) => viol(&mut out, "worker-hang", json!({"what": "worker thread still running after the stop"})),
         Err(p) => viol(&mut out, "panic:worker", json!({"panic": p})),
     }
@@ -486,8 +492,20 @@ fn main() {
         "requests": totals[0].load(Ordering::Relaxed), "responses": totals[1].load(Ordering::Relaxed),
         "probes": totals[2].load(Ordering::Relaxed), "hook_events": totals[3].load(Ordering::Relaxed),
         "soft_stops": totals[4].load(Ordering::Relaxed), "hooked": hooked,
+        "open_fds": std::fs::read_dir("/proc/self/fd").map(|d| d.count()).unwrap_or(0),
         "wall_s": t0.elapsed().as_secs_f64(), "samples": samples,
     }));
+    if std::env::var("C08_FD_DEBUG").is_ok() {
+        let mut kinds: BTreeMap<String, u64> = BTreeMap::new();
+        if let Ok(d) = std::fs::read_dir("/proc/self/fd") {
+            for e in d.flatten() {
+                let t = std::fs::read_link(e.path()).map(|p| p.to_string_lossy().to_string()).unwrap_or_default();
+                let k = t.split(':').next().unwrap_or("").to_string();
+                *kinds.entry(k).or_insert(0) += 1;
+            }
+        }
+        eprintln!("open descriptors by kind: {kinds:?}");
+    }
     // worker threads that never exited (violations) must not keep the process alive
     std::process::exit(0);
 }
